@@ -1053,6 +1053,14 @@ func init() {
 
 // ---- resource obligations (C20) ---------------------------------------------------------------------
 
+// allocSizeArg: helpers that return a buffer of (at least) the size given in this argument, padding with zeros.
+var allocSizeArg = map[string]int{
+	"P0.getData": 2,
+	"github.com/ethereum/go-ethereum/common.RightPadBytes": 1,
+	"github.com/ethereum/go-ethereum/common.LeftPadBytes":  1,
+	"bytes.Repeat": 1,
+}
+
 // bufferBounds: the lengths of buffers that exist independently of the analysed size (seen len() symbols) .
 func (a *ranger) boundedByExisting(at *ssa.BasicBlock, n lin) (bool, string) {
 	if a.proves(at, le(n, konst64(1<<16))) {
@@ -1096,6 +1104,11 @@ func (a *ranger) resourceObligations() []*resObl {
 			case *ssa.Call:
 				if f := x.Call.StaticCallee(); f != nil && memPre[normPath(f.String())] && len(x.Call.Args) == 3 {
 					size, kind = x.Call.Args[2], "copy-size"
+				} else if f != nil {
+					// helpers that allocate (zero-pad up to) their size argument
+					if i, ok := allocSizeArg[normPath(f.String())]; ok && i < len(x.Call.Args) {
+						size, kind = x.Call.Args[i], "alloc-size"
+					}
 				}
 			}
 			if kind == "" {
